@@ -180,9 +180,19 @@ RuleSpecific(n, es) ==
   [] n = "convert_require" -> SetValue(es, "target", S("nope"), "invalid-value") \cup Inner(es, 2, "mode")
                               \cup SetValue(es, "current", O(<<"name", "str", "nope">>), "invalid-value")
   [] OTHER -> {}
+\* groups of properties of which at most one may be given: EVERY pair of every group, on the minimal object form
+ExclusiveGroups(n) == CASE n = "inject_global_value" -> {{"value", "env", "env_json"}, {"value", "default_value"}}
+                        [] n = "append_text_comment" -> {{"text", "file"}}
+                        [] OTHER -> {}
+SampleOf(k) == CASE k = "value" -> N("1") [] k = "default_value" -> N("7") [] k = "file" -> S("header.txt") [] k = "text" -> S("x")
+                 [] k = "identifier" -> S("CFG") [] OTHER -> S("DLV_C19_UNDEFINED")
+MinimalBase(n) == <<E("rule", S(n))>> \o (IF n = "inject_global_value" THEN <<E("identifier", S("CFG"))>> ELSE <<>>)
+ExclusivePairs(n) == UNION {{Cor(MinimalBase(n) \o <<E(p[1], SampleOf(p[1])), E(p[2], SampleOf(p[2]))>>, "contradictory", p[1] \o "+" \o p[2])
+                             : p \in {q \in g \X g : q[1] # q[2]}}
+                            : g \in ExclusiveGroups(n)}
 RuleCorruptions(n) ==
   LET es == RuleBase(n) IN
-  Generic(es, n) \cup Drop(es, {"rule"} \cup Required(n)) \cup RuleSpecific(n, es)
+  Generic(es, n) \cup Drop(es, {"rule"} \cup Required(n)) \cup RuleSpecific(n, es) \cup ExclusivePairs(n)
   \cup SetValue(es, "rule", S(n \o "_x"), "unknown-rule")
   \cup SetValue(es, "apply_to_files", S("["), "invalid-glob") \cup SetValue(es, "skip_files", L(<<K1, "**a">>), "invalid-glob")
   \cup SetValue(es, "apply_to_files", L(<<P1, "{a">>), "invalid-glob")
